@@ -314,6 +314,10 @@ var _ uuid.UUID
 // against its side of that protocol.
 
 //@ spec wfDataset(d *Dataset) bool = d.clusterConn != nil && d.meta != nil && forall i int :: 0 <= i && i < len(d.partitions) ==> d.partitions[i] != nil && d.partitions[i].index != nil && d.partitions[i].meta != nil
+// what the request paths need on top: every partition knows its dataset, can wait for notifications, and the dataset has the
+// partitions its catalogue entry promises (C12: established by newDataset for a configuration that Create accepted)
+//@ spec wfPartition(d *Dataset, p *partition) bool = p != nil && p.index != nil && p.meta != nil && p.dataset == d && p.notificator != nil && p.notificator.chans != nil
+//@ spec wfDatasetFull(d *Dataset) bool = wfDataset(d) && d.meta.PartitionCount >= 1 && len(d.partitions) == d.meta.PartitionCount && (forall i int :: 0 <= i && i < len(d.partitions) ==> wfPartition(d, d.partitions[i])) && (forall id uuid.UUID :: has(d.partitionsMap, id) ==> wfPartition(d, d.partitionsMap[id]))
 
 //@ func iface:context.Context.Done
 //@ props C17 C09 C11 C03 C05 C14
@@ -329,7 +333,7 @@ var _ uuid.UUID
 //@ modifies nothing
 
 //@ func (*storage.Dataset).getDataManagerClient
-//@ props C17 C11 C09
+//@ props C17 C11 C09 C12
 //@ assume
 //@ ensures [client-xor-error] isnil(ret1) != isnil(ret0)
 //@ modifies map(this.dataManagerClients)
@@ -346,10 +350,18 @@ var _ uuid.UUID
 //@ pure
 //@ modifies nothing
 
-//@ func (*storage.partition).randomNodeId
-//@ props C17 C11 C09
+//@ func math/rand.Intn
+//@ props C12 C09 C11 C17
 //@ assume
+//@ requires [positive] n > 0
+//@ ensures [range] 0 <= ret && ret < n
+//@ modifies nothing
+
+// total: a partition that no node hosts yields the invalid node id 0 (dialing it fails), never a panic
+//@ func (*storage.partition).randomNodeId
+//@ props C17 C11 C09 C12
 //@ pure
+//@ requires [meta] this != nil
 //@ modifies nothing
 
 //@ func iface:protobuf.DataManagerClient.PartitionInfo
@@ -396,6 +408,7 @@ var _ uuid.UUID
 //@ requires [ctx] !isnil(ctx)
 //@ ensures [each-once] isnil(ret2) ==> handled == len(this.partitions)
 //@ ensures [fails-loudly] gotErr == 1 ==> !isnil(ret2)
+//@ modifies nothing
 //@ loop 1
 //@ invariant [handled] handled == rangeindex + 1 && gotErr == 0
 //@ invariant [range] 0 - 1 <= rangeindex && rangeindex + 1 <= len(this.partitions)
@@ -433,10 +446,13 @@ var _ uuid.UUID
 //@ modifies nothing
 
 //@ func (*storage.Dataset).getSearchQueryNodes
-//@ props C09
-//@ assume
-//@ ensures [map] ret != nil
+//@ props C09 C12
+//@ requires [wf] wfDataset(this)
+//@ ensures [map] ret != nil && fresh(ret)
 //@ modifies nothing
+//@ loop 1
+//@ invariant [map] result != nil && fresh(result)
+//@ invariant [lists-local] forall n uint64 :: has(result, n) ==> fresh(result[n])
 
 //@ func iface:protobuf.SearchClient.SearchPartitions
 //@ props C09
@@ -573,6 +589,10 @@ var _ uuid.UUID
 //@ props C11 C14
 //@ assume
 //@ modifies nothing
+//@ func iface:storage/raft.Group.Propose
+//@ props C12 C11 C14
+//@ assume
+//@ modifies nothing
 
 // success is returned only for a value that came out of this proposal's own notification channel
 //@ func (*storage.partition).proposeAndWaitForCommit
@@ -609,6 +629,221 @@ var _ uuid.UUID
 //@ pure
 //@ requires [partitions] this.meta != nil && this.meta.PartitionCount >= 1 && len(this.partitions) == this.meta.PartitionCount
 //@ ensures [owner] ret == this.partitions[uuidmod(id, this.meta.PartitionCount)] && uuidmod(id, this.meta.PartitionCount) < len(this.partitions)
+
+// ---------------------------------------------------------------------------------------------
+// C12: the catalogue invariant the request paths rely on, and the storage methods the RPC handlers call.
+//@ spec wfCatalogue(dm *DatasetManager) bool = dm.datasets != nil && dm.notificator != nil && dm.notificator.chans != nil && !isnil(dm.raft) && dm.allocator != nil && dm.allocator.clusterConn != nil && dm.allocator.clusterConn.addresses != nil && forall id uuid.UUID :: has(dm.datasets, id) ==> dm.datasets[id] != nil && wfDatasetFull(dm.datasets[id])
+
+//@ func (*storage.DatasetManager).Get
+//@ props C12 C14
+//@ pure
+//@ ensures [found] isnil(ret1) ==> has(this.datasets, id) && ret0 == this.datasets[id]
+//@ ensures [absent] !isnil(ret1) ==> ret0 == nil
+//@ modifies nothing
+
+//@ func (*storage.Dataset).Meta
+//@ props C12
+//@ pure
+//@ ensures [meta] ret == this.meta
+//@ modifies nothing
+
+// ---------------------------------------------------------------------------------------------
+// C12: dataset-level batch writes. Items come straight from a decoded request: the only thing assumed about them is that a
+// repeated message field has no nil element (protobuf decoding never produces one); ids, vectors, metadata are arbitrary.
+//@ spec noNilItems(items []*pb.BatchItem) bool = forall i int :: 0 <= i && i < len(items) ==> items[i] != nil
+//@ spec wfGroups(d *Dataset, m map[*partition][]*pb.BatchItem) bool = !has(m, nil) && (forall p *partition :: has(m, p) ==> wfPartition(d, p)) && (forall p *partition, i int :: has(m, p) && 0 <= i && i < len(m[p]) ==> m[p][i] != nil)
+
+//@ func github.com/satori/go.uuid.FromBytesOrNil
+//@ props C12
+//@ assume
+//@ modifies nothing
+
+//@ func (*storage.Dataset).groupBatchItemsByPartition
+//@ props C12 C10
+//@ requires [wf] wfDatasetFull(this)
+//@ requires [decoded] noNilItems(items)
+//@ ensures [groups] isnil(ret1) ==> ret0 != nil && fresh(ret0) && wfGroups(this, ret0)
+//@ ensures [nil-on-error] !isnil(ret1) ==> ret0 == nil
+//@ modifies nothing
+//@ loop 1
+//@ invariant [map] result != nil && fresh(result) && wfDatasetFull(this) && noNilItems(items)
+//@ invariant [partitions] !has(result, nil) && forall p *partition :: has(result, p) ==> wfPartition(this, p)
+//@ invariant [items] forall p *partition, i int :: has(result, p) && 0 <= i && i < len(result[p]) ==> result[p][i] != nil
+//@ invariant [lists-local] forall p *partition :: has(result, p) ==> fresh(result[p]) && allocated(result[p])
+
+// per-partition worker: exactly the protocol of C09's workers is not claimed here; C12 needs its call preconditions only
+//@ func functype:storage.partitionBatchRequestLocalFn
+//@ props C12
+//@ assume
+//@ requires [partition] arg0 != nil && pready(arg0) && !isnil(arg1) && noNilItems(arg2)
+//@ modifies *
+//@ func functype:storage.partitionBatchRequestRemoteFn
+//@ props C12
+//@ assume
+//@ requires [client] !isnil(arg0)
+//@ modifies *
+
+//@ func (*storage.Dataset).errorToPartitionBatchResult
+//@ props C12
+//@ ensures [map] ret != nil
+//@ modifies nothing
+
+// keys of a peer's error map are produced by UUID.String() on that peer (services.errorsMapToBatchResponse)
+//@ func (*storage.Dataset).errorsResponseToPartitionBatchResult
+//@ props C12
+//@ assume
+//@ trust peers: the keys of a BatchResponse received from another anndb node are canonical UUID strings (uuid.Must(uuid.FromString(key)) would panic otherwise)
+//@ ensures [map] ret != nil
+//@ modifies nothing
+
+//@ func (*storage.Dataset).handlePartitionBatchRequest
+//@ props C12
+//@ requires [wf] wfDataset(this) && wfPartition(this, partition) && !isnil(ctx) && noNilItems(items) && wg != nil && remoteFn != nil && localFn != nil
+//@ modifies *
+
+//@ func (*storage.Dataset).partitionsBatchRequest
+//@ props C12
+//@ at go handlePartitionBatchRequest
+//@ requires [C12 worker-pre] wfPartition(this, $arg2) && noNilItems($arg3) && $arg4 != nil && $arg6 != nil && $arg7 != nil
+//@ end
+//@ requires [wf] wfDatasetFull(this) && !isnil(ctx) && noNilItems(items) && remoteFn != nil && localFn != nil
+//@ ensures [map-xor-error] isnil(ret1) ==> ret0 != nil
+//@ modifies *
+//@ loop 1
+//@ invariant [groups] wfDataset(this) && wfGroups(this, $map) && remoteFn != nil && localFn != nil
+//@ loop 2
+//@ invariant [count] 0 <= i && i <= len(partitionItems) && errors != nil
+
+// the closures that the batch methods hand to partitionsBatchRequest
+//@ func (*storage.Dataset).BatchInsert$1
+//@ props C12
+//@ requires [client] !isnil(client)
+//@ modifies *
+//@ func (*storage.Dataset).BatchInsert$2
+//@ props C12
+//@ requires [partition] partition != nil && pready(partition) && !isnil(ctx) && noNilItems(items)
+//@ modifies *
+//@ func (*storage.Dataset).BatchUpdate$1
+//@ props C12
+//@ requires [client] !isnil(client)
+//@ modifies *
+//@ func (*storage.Dataset).BatchUpdate$2
+//@ props C12
+//@ requires [partition] partition != nil && pready(partition) && !isnil(ctx) && noNilItems(items)
+//@ modifies *
+//@ func (*storage.Dataset).BatchRemove$1
+//@ props C12
+//@ requires [client] !isnil(client)
+//@ modifies *
+//@ func (*storage.Dataset).BatchRemove$2
+//@ props C12
+//@ requires [partition] partition != nil && pready(partition) && !isnil(ctx) && noNilItems(items)
+//@ modifies *
+
+//@ func iface:protobuf.DataManagerClient.PartitionBatchInsert
+//@ props C12
+//@ assume
+//@ modifies nothing
+//@ func iface:protobuf.DataManagerClient.PartitionBatchUpdate
+//@ props C12
+//@ assume
+//@ modifies nothing
+//@ func iface:protobuf.DataManagerClient.PartitionBatchRemove
+//@ props C12
+//@ assume
+//@ modifies nothing
+
+// oversized batches are refused before anything else happens; everything else is per-item
+//@ func (*storage.Dataset).BatchInsert
+//@ props C12
+//@ requires [wf] wfDatasetFull(this) && !isnil(ctx)
+//@ requires [decoded] noNilItems(items)
+//@ ensures [C12 size-cap] len(items) > 1000 ==> ret1 == BatchRequestTooLargerErr
+//@ modifies *
+//@ loop 1
+//@ invariant [checked] wfDatasetFull(this) && errors != nil && noNilItems(checkedItems) && noNilItems(items)
+//@ func (*storage.Dataset).BatchUpdate
+//@ props C12
+//@ requires [wf] wfDatasetFull(this) && !isnil(ctx)
+//@ requires [decoded] noNilItems(items)
+//@ ensures [C12 size-cap] len(items) > 1000 ==> ret1 == BatchRequestTooLargerErr
+//@ modifies *
+//@ loop 1
+//@ invariant [checked] wfDatasetFull(this) && errors != nil && noNilItems(checkedItems) && noNilItems(items)
+//@ func (*storage.Dataset).BatchRemove
+//@ props C12
+//@ requires [wf] wfDatasetFull(this) && !isnil(ctx)
+//@ requires [decoded] noNilItems(items)
+//@ ensures [C12 size-cap] len(items) > 1000 ==> ret1 == BatchRequestTooLargerErr
+//@ modifies *
+
+//@ func (*storage.Dataset).PartitionBatchInsert
+//@ props C12
+//@ requires [wf] wfDatasetFull(this) && !isnil(ctx)
+//@ requires [decoded] noNilItems(items)
+//@ modifies *
+//@ func (*storage.Dataset).PartitionBatchUpdate
+//@ props C12
+//@ requires [wf] wfDatasetFull(this) && !isnil(ctx)
+//@ requires [decoded] noNilItems(items)
+//@ modifies *
+//@ func (*storage.Dataset).PartitionBatchRemove
+//@ props C12
+//@ requires [wf] wfDatasetFull(this) && !isnil(ctx)
+//@ requires [decoded] noNilItems(items)
+//@ modifies *
+
+//@ func (*storage.Dataset).PartitionInfo
+//@ props C12
+//@ requires [wf] wfDatasetFull(this)
+//@ modifies nothing
+//@ func (*storage.Dataset).Len
+//@ props C12
+//@ requires [wf] wfDataset(this) && !isnil(ctx)
+//@ modifies nothing
+//@ func (*storage.Dataset).BytesSize
+//@ props C12
+//@ requires [wf] wfDataset(this) && !isnil(ctx)
+//@ modifies nothing
+
+// ---------------------------------------------------------------------------------------------
+// C12: catalogue requests. What Create hands to raft must be a record that createDataset/newDataset turn into a working
+// dataset on every replica: a 16-byte id, dimension/partition count/replication factor >= 1, a defined metric, and exactly
+// PartitionCount partition records with 16-byte ids.
+//@ spec wfDatasetRecord(d *pb.Dataset) bool = len(d.Id) == 16 && d.Dimension >= 1 && d.PartitionCount >= 1 && d.ReplicationFactor >= 1 && 0 <= d.Space && d.Space <= 2 && len(d.Partitions) == d.PartitionCount && forall i int :: 0 <= i && i < len(d.Partitions) ==> d.Partitions[i] != nil && len(d.Partitions[i].Id) == 16
+
+//@ func (*storage.DatasetManager).Create
+//@ props C12
+//@ ghost proposedRecords int = 0
+//@ at call proto.Marshal
+//@ requires [C12 wellformed-proposal] istype($arg0, *pb.Dataset) ==> wfDatasetRecord(dataset)
+//@ set proposedRecords = proposedRecords + ite(istype($arg0, *pb.Dataset), 1, 0)
+//@ end
+//@ at recv local:notifC
+//@ assume [protocol: the value notified for a catalogue change is nil or an error (createDataset notifies only those); the channel is closed only by this call's own deferred Remove] $ok && (isnil($recv) || implements($recv, error))
+//@ end
+//@ requires [wf] wfCatalogue(this) && !isnil(ctx) && dataset != nil
+//@ requires [enum-table] forall k int32 :: has(pb.Space_name, k) == (0 <= k && k <= 2)
+//@ ensures [dataset-xor-error] isnil(ret1) ==> ret0 != nil
+//@ modifies *
+//@ loop 1
+//@ invariant [partitions] 0 <= i && i <= dataset.PartitionCount && len(dataset.Partitions) == dataset.PartitionCount && fresh(dataset.Partitions) && len(partitionsNodeIds) == dataset.PartitionCount && forall j int :: 0 <= j && j < i ==> dataset.Partitions[j] != nil && len(dataset.Partitions[j].Id) == 16 && fresh(dataset.Partitions[j])
+//@ invariant [config] len(dataset.Id) == 16 && dataset.Dimension >= 1 && dataset.PartitionCount >= 1 && dataset.ReplicationFactor >= 1 && 0 <= dataset.Space && dataset.Space <= 2 && wfCatalogue(this)
+
+//@ func (*storage.DatasetManager).Delete
+//@ props C12
+//@ at recv local:notifC
+//@ assume [protocol: the value notified for a catalogue change is nil or an error; the channel is closed only by this call's own deferred Remove] $ok && (isnil($recv) || implements($recv, error))
+//@ end
+//@ requires [wf] wfCatalogue(this) && !isnil(ctx)
+//@ modifies *
+
+//@ func (*storage.DatasetManager).List
+//@ props C12
+//@ requires [wf] wfCatalogue(this) && !isnil(ctx)
+//@ modifies *
+//@ loop 1
+//@ invariant [fill] 0 <= i && i == $count && len(result) == len(this.datasets) && fresh(result) && wfCatalogue(this)
 
 // ---------------------------------------------------------------------------------------------
 // C12 (poison clause): whatever a proposer hands to raft must be an entry that `process` applies without an error on
@@ -704,7 +939,7 @@ var _ uuid.UUID
 //@ set rpcs = rpcs + 1
 //@ set rpcFailed = ite(isnil($ret1), 0, 1)
 //@ end
-//@ requires [wf] wfDataset(this) && this.meta.PartitionCount >= 1 && len(this.partitions) == this.meta.PartitionCount
+//@ requires [wf] wfDatasetFull(this) && !isnil(ctx)
 //@ ensures [dimension-first] len(value) % 4294967296 != old(this.meta.Dimension) ==> ret == DimensionMissmatchErr && proposals == 0 && rpcs == 0
 //@ ensures [unreachable-owner] dialFailed == 1 ==> !isnil(ret)
 //@ ensures [rpc-error] rpcFailed == 1 ==> !isnil(ret)
@@ -728,7 +963,7 @@ var _ uuid.UUID
 //@ set rpcs = rpcs + 1
 //@ set rpcFailed = ite(isnil($ret1), 0, 1)
 //@ end
-//@ requires [wf] wfDataset(this) && this.meta.PartitionCount >= 1 && len(this.partitions) == this.meta.PartitionCount
+//@ requires [wf] wfDatasetFull(this) && !isnil(ctx)
 //@ ensures [dimension-first] len(value) % 4294967296 != old(this.meta.Dimension) ==> ret == DimensionMissmatchErr && proposals == 0 && rpcs == 0
 //@ ensures [unreachable-owner] dialFailed == 1 ==> !isnil(ret)
 //@ ensures [rpc-error] rpcFailed == 1 ==> !isnil(ret)
@@ -752,7 +987,7 @@ var _ uuid.UUID
 //@ set rpcs = rpcs + 1
 //@ set rpcFailed = ite(isnil($ret1), 0, 1)
 //@ end
-//@ requires [wf] wfDataset(this) && this.meta.PartitionCount >= 1 && len(this.partitions) == this.meta.PartitionCount
+//@ requires [wf] wfDatasetFull(this) && !isnil(ctx)
 //@ ensures [unreachable-owner] dialFailed == 1 ==> !isnil(ret)
 //@ ensures [rpc-error] rpcFailed == 1 ==> !isnil(ret)
 //@ ensures [exactly-one-route] isnil(ret) ==> proposals + rpcs == 1
